@@ -138,6 +138,53 @@ pub fn prepare(case: &Case, form: &str, rng: &mut Rng) -> Prepared {
             // a name that is also a stored program keeps resolving to the variable first: fine
             let sub = |n: &str| chosen.get(n).cloned();
             tree = tree.subst(&sub);
+            // a stored program is evaluated under the bindings of the site that references it, loop
+            // variables included: names used as loop variables anywhere stay variables inside programs
+            let mut lv = Vec::new();
+            crate::tree::loop_vars(&case.tree, &mut lv);
+            for p in case.progs.values() {
+                crate::tree::loop_vars(p, &mut lv);
+            }
+            let subp = |n: &str| if lv.iter().any(|x| x == n) { None } else { chosen.get(n).cloned() };
+            let mut keep: Vec<String> = Vec::new();
+            for (_, p) in progs.iter_mut() {
+                *p = p.subst(&subp);
+            }
+            for n in lv.iter() {
+                if chosen.contains_key(n) && case.progs.values().any(|p| mentions(p, n)) {
+                    keep.push(n.clone());
+                }
+            }
+            for n in keep {
+                chosen.remove(&n);
+            }
+            for k in chosen.keys() {
+                params.remove(k);
+            }
+        }
+        f if f.starts_with("sub:") => {
+            // literals for the variables selected by the mask (in sorted name order)
+            let mask = &f[4..];
+            let mut chosen: BTreeMap<String, T> = BTreeMap::new();
+            for (i, (k, v)) in case.bind.iter().enumerate() {
+                if mask.as_bytes().get(i) == Some(&b'1') {
+                    if let Some(t) = value_as_tree(v) {
+                        chosen.insert(k.clone(), t);
+                    }
+                }
+            }
+            let mut lv = Vec::new();
+            crate::tree::loop_vars(&case.tree, &mut lv);
+            for p in case.progs.values() {
+                crate::tree::loop_vars(p, &mut lv);
+            }
+            for n in lv.iter() {
+                if case.progs.values().any(|p| mentions(p, n)) {
+                    chosen.remove(n);
+                }
+            }
+            let sub = |n: &str| chosen.get(n).cloned();
+            tree = tree.subst(&sub);
             for (_, p) in progs.iter_mut() {
                 *p = p.subst(&sub);
             }
@@ -158,6 +205,22 @@ pub fn prepare(case: &Case, form: &str, rng: &mut Rng) -> Prepared {
     let main_src = render(&tree, parens, ws, rng);
     let prog_srcs = progs.iter().map(|(k, t)| (k.clone(), render(t, parens, ws, rng))).collect();
     Prepared { main_src, prog_srcs, params, json_bind }
+}
+
+fn mentions(t: &T, name: &str) -> bool {
+    let mut found = false;
+    let probe = |n: &str| {
+        if n == name {
+            Some(T::Id("\u{1}hit".to_string()))
+        } else {
+            None
+        }
+    };
+    let r = t.subst(&probe);
+    if r != *t {
+        found = true;
+    }
+    found
 }
 
 pub struct Executed {
